@@ -16,8 +16,8 @@ import pygen as G
 import pyside as PS
 
 CID = 'C12'
-OPS = ['EQ', 'EQ', 'EQ', 'FR', 'FR', 'MV', 'I', 'I', 'ES', 'SS', 'SIMP', 'HNF', 'UI', 'UA', 'DE', 'DS', 'DY', 'DX', 'DM',
-       'MS', 'MS']
+OPS = ['EQ', 'EQ', 'EQ', 'EQ', 'FR', 'FR', 'MV', 'I', 'I', 'ES', 'SS', 'SIMP', 'HNF', 'UI', 'UA', 'DE', 'DS', 'DY', 'DX', 'DM',
+       'MS', 'MS', 'DN', 'DN', 'DNP']
 
 
 def sigfun(c, impl, got, flag, drop):
@@ -32,6 +32,27 @@ def gen_cases(rng, sides, n, drop):
     gen = G.Gen(rng, notations=[nt for nt in sides.shipped if nt.family in (None, 'forall', 'nary_app')])
     for i in range(10):
         gen.notations.append(gen.random_notation(2, f'g{i}'))
+    gen.notations += G.spine_notations(rng)
+    binders = G.binder_notations(gen.notations)
+
+    def context(a, b):
+        # the same context around both sides (constructors and notation)
+        for _k in range(rng.randrange(0, 3)):
+            c = rng.random()
+            if c < 0.4:
+                o = gen.term(1)
+                a, b = (('i', a, o), ('i', b, o)) if rng.random() < 0.5 else (('a', o, a), ('a', o, b))
+            elif c < 0.6:
+                v = gen.var()
+                a, b = ('x', v, a), ('x', v, b)
+            else:
+                nt = rng.choice([x for x in gen.notations if x.arity >= 1])
+                args = [gen.term(0) for _ in range(nt.arity)]
+                j = rng.randrange(nt.arity)
+                aa, bb = list(args), list(args)
+                aa[j], bb[j] = a, b
+                a, b = nt(*aa), nt(*bb)
+        return a, b
     cases = []
     for _ in range(n):
         depth = rng.choice([1, 2, 2, 3, 3, 4])
@@ -40,10 +61,14 @@ def gen_cases(rng, sides, n, drop):
         if op == 'EQ':
             c = rng.random()
             if c < 0.3:
+                # two patterns over ONE definition: ignored arguments, partial applications, extra keys, reordered dicts
+                p, q, _kind = G.related_pair(rng, gen, drop)
+                p, q = context(p, q)
+            elif c < 0.5:
                 q = G.partial_unfold(rng, p, 0.5, drop)
-            elif c < 0.4:
+            elif c < 0.55:
                 q = p
-            elif c < 0.75:
+            elif c < 0.8:
                 q = gen.mutate(G.partial_unfold(rng, p, 0.3, drop) if rng.random() < 0.5 else p)
             else:
                 q = gen.term(depth)
@@ -60,10 +85,43 @@ def gen_cases(rng, sides, n, drop):
                 for _k in range(rng.randrange(0, 3)):
                     p = ('I', PC.mv(1), ((1, p),))
             args = PC.show(p)
+        elif op in ('DN', 'DNP'):
+            # application spines through notation: n-ary applications, argument-permuting / metavariable-headed
+            # definitions, dicts that are not in key order, partial applications
+            nts = [x for x in gen.notations if x.arity >= 1 and (x.family == 'nary_app' or x.label in ('flip', 'diag', 'apply', 'rot', 'skip')
+                                                                  or rng.random() < 0.15)]
+            nt = rng.choice(nts)
+            a_ = [gen.term(rng.choice([0, 1, 1, 2])) for _ in range(nt.arity)]
+            items = list(enumerate(a_))
+            c = rng.random()
+            if c < 0.35:
+                rng.shuffle(items)
+            elif c < 0.45:
+                items = items[:-1]
+            p = ('I', nt.definition, tuple(items))
+            if rng.random() < 0.3:
+                p = ('a', p, gen.term(1))
+            if op == 'DN':
+                args = PC.show(p)
+            else:       # an ==-equal pattern in another presentation, both orders, fresh cache per pair
+                q = ('I', nt.definition, tuple(enumerate(a_))) if len(items) == nt.arity and rng.random() < 0.6 \
+                    else G.partial_unfold(rng, p, 0.7, drop)
+                if rng.random() < 0.5:
+                    p, q = q, p
+                args = PC.show(p) + ' ' + PC.show(q)
         elif op == 'I':
-            args = PC.show(p) + ' ' + PC.showd(gen.delta(max(0, depth - 2)))
+            if binders and rng.random() < 0.15:
+                prem, d, _x = G.subst_under_binder(rng, gen, binders)
+                args = PC.show(prem) + ' ' + PC.showd(d)
+            else:
+                args = PC.show(p) + ' ' + PC.showd(gen.delta(max(0, depth - 2)))
         elif op in ('ES', 'SS'):
-            args = f'{PC.show(p)} {gen.var()} {PC.show(gen.term(max(0, depth - 2)))}'
+            if op == 'ES' and binders and rng.random() < 0.2:      # substitute a variable the notation binds
+                nt, x = rng.choice(binders)
+                p = nt(*[('a', ('y', rng.choice(gen.syms)), ('e', x)) if rng.random() < 0.7 else gen.term(1) for _ in range(nt.arity)])
+                args = f'{PC.show(p)} {x} {PC.show(gen.term(1))}'
+            else:
+                args = f'{PC.show(p)} {gen.var()} {PC.show(gen.term(max(0, depth - 2)))}'
         else:  # MS: instance = pattern instantiated (by construction an instance) or arbitrary
             pat = gen.term(depth, subst=0.02)
             c = rng.random()
@@ -76,7 +134,7 @@ def gen_cases(rng, sides, n, drop):
                 inst = gen.term(depth)
             seed = gen.delta(1) if rng.random() < 0.2 else ()
             args = PC.show(pat) + ' ' + PC.show(inst) + ' ' + PC.showd(seed)
-        cases.append(PS.make_case(op, args))
+        cases.append(PS.make_case(op, args, sides.notn_by_id))
     return cases
 
 
